@@ -223,8 +223,11 @@ def applyEv (m : MState) : Ev → MState
     let hasPrimary := match t.primary with | some p => keys.contains p | none => false
     let executedOk := (fate == .answered || fate == .lostResp) && ok
     let maybe := hasPrimary && !(fate == .notExecuted || (fate == .answered && definiteErr))
+    -- an answered definite error of the primary commit settles every earlier primary commit whose outcome was lost:
+    -- the request is idempotent, had an earlier one taken effect this one would have answered success
+    let settled := hasPrimary && fate == .answered && definiteErr && !ok
     m.upd { t with
-      commitPointMaybe := t.commitPointMaybe || maybe
+      commitPointMaybe := if settled then false else t.commitPointMaybe || maybe
       primaryCommitted := if hasPrimary && executedOk then some commitTS else t.primaryCommitted
       committedKeys := if executedOk then t.committedKeys ++ keys else t.committedKeys }
   | .rollback _ _ _ _ => m
